@@ -547,19 +547,119 @@ type inscTwin struct {
 	DataLen  int      `json:"data_len"`
 	DataHead string   `json:"data_head_hex"`
 	Enriched []string `json:"enriched,omitempty"`
+	// how "nothing there" was written in the argument object (new families only)
+	DataNil      bool   `json:"data_nil,omitempty"`      // InscriptionArgs.Data left unset
+	EnrichedArgs string `json:"enriched_args,omitempty"` // nil-args | nil-list | list (elements "nil" in enriched are nil slices)
+	Variant      string `json:"variant,omitempty"`
+}
+
+// enrSpec: EnrichedArgs as Go can express it — no EnrichedArgs at all, an object whose OpReturnData is nil, an empty
+// list, a list whose elements may themselves be nil.
+type enrSpec struct {
+	ArgsNil bool
+	ListNil bool
+	Parts   [][]byte
+}
+
+func (e enrSpec) kind() string {
+	switch {
+	case e.ArgsNil:
+		return "nil-args"
+	case e.ListNil:
+		return "nil-list"
+	}
+	return "list"
+}
+
+func (e enrSpec) build() *bscript.EnrichedInscriptionArgs {
+	switch {
+	case e.ArgsNil:
+		return nil
+	case e.ListNil:
+		return &bscript.EnrichedInscriptionArgs{}
+	}
+	parts := make([][]byte, len(e.Parts))
+	for i, p := range e.Parts {
+		if p != nil {
+			parts[i] = append(make([]byte, 0, len(p)), p...)
+		}
+	}
+	return &bscript.EnrichedInscriptionArgs{OpReturnData: parts}
+}
+
+func (e enrSpec) coq() string {
+	switch {
+	case e.ArgsNil:
+		return "None"
+	case e.ListNil:
+		return "(Some None)"
+	}
+	var xs []string
+	for _, p := range e.Parts {
+		xs = append(xs, coqOptSlice(p))
+	}
+	return "(Some (Some " + coqList(xs) + "))"
+}
+
+func coqOptSlice(b []byte) string {
+	if b == nil {
+		return "None"
+	}
+	return "(Some " + cb(b) + ")"
+}
+
+// tailLen: the number of bytes Inscribe has to write behind OP_RETURN for these parts, from the push rules (-1: no
+// OP_RETURN at all: no enriched arguments or no parts).
+func (e enrSpec) tailLen() int {
+	if e.ArgsNil || e.ListNil || len(e.Parts) == 0 {
+		return -1
+	}
+	n := 0
+	for _, p := range e.Parts {
+		n += len(ordgen.Push(p))
+	}
+	return n
+}
+
+// inscSpec: one call of Inscribe. data == nil means InscriptionArgs.Data left unset; variant != "" selects the
+// argument-object form of the Coq case (CInscribeArgs), which carries nil-ness.
+type inscSpec struct {
+	prefix, ct, data []byte
+	enr              enrSpec
+	expectRoundTrip  bool
+	variant          string
 }
 
 func inscribeCase(prefix, ct, data []byte, enriched [][]byte, enrichedNil bool, expectRoundTrip bool) []byte {
-	pfx := bscript.Script(append([]byte{}, prefix...))
-	ia := &bscript.InscriptionArgs{LockingScriptPrefix: &pfx, Data: data, ContentType: string(ct)}
-	if !enrichedNil {
-		ia.EnrichedArgs = &bscript.EnrichedInscriptionArgs{OpReturnData: enriched}
+	return inscribeSpecCase(inscSpec{prefix: prefix, ct: ct, data: data, enr: enrSpec{ArgsNil: enrichedNil, Parts: enriched}, expectRoundTrip: expectRoundTrip})
+}
+
+func inscribeSpecCase(sp inscSpec) []byte {
+	prefix, ct, expectRoundTrip := sp.prefix, sp.ct, sp.expectRoundTrip
+	// the harness's own copy of the payload: what is compared with the parse result is not the buffer the library was given
+	var data []byte
+	var given []byte
+	if sp.data != nil {
+		data = append(make([]byte, 0, len(sp.data)), sp.data...)
+		given = sp.data
 	}
+	var pfx bscript.Script // (stays a nil script when the case says so)
+	if prefix != nil {
+		pfx = append([]byte{}, prefix...)
+	}
+	ia := &bscript.InscriptionArgs{LockingScriptPrefix: &pfx, Data: given, ContentType: string(ct), EnrichedArgs: sp.enr.build()}
 	tx := bt.NewTx()
 	var err error
-	twin := inscTwin{Prefix: common.Hex(prefix), CT: common.Hex(ct), DataLen: len(data), DataHead: common.Hex(trunc(data))}
-	for _, e := range enriched {
-		twin.Enriched = append(twin.Enriched, common.Hex(trunc(e)))
+	twin := inscTwin{Prefix: common.Hex(prefix), CT: common.Hex(ct), DataLen: len(data), DataHead: common.Hex(trunc(data)), Variant: sp.variant}
+	for _, e := range sp.enr.Parts {
+		if e == nil && sp.variant != "" {
+			twin.Enriched = append(twin.Enriched, "nil")
+		} else {
+			twin.Enriched = append(twin.Enriched, common.Hex(trunc(e)))
+		}
+	}
+	if sp.variant != "" {
+		twin.DataNil, twin.EnrichedArgs = sp.data == nil, sp.enr.kind()
 	}
 	if p, msg := common.Safely(func() { err = tx.Inscribe(ia) }); p {
 		c.Violate("Inscribe/panic", msg, twin)
@@ -571,6 +671,17 @@ func inscribeCase(prefix, ct, data []byte, enriched [][]byte, enrichedNil bool, 
 	}
 	if !bytes.Equal(pfx, prefix) {
 		c.Violate("Inscribe/prefix-modified", "the caller's LockingScriptPrefix was changed", twin)
+	}
+	if !bytes.Equal(given, data) || (given == nil) != (ia.Data == nil) {
+		c.Violate("Inscribe/data-modified", "the caller's Data was changed", twin)
+	}
+	if ia.EnrichedArgs != nil {
+		for i, p := range ia.EnrichedArgs.OpReturnData {
+			if i >= len(sp.enr.Parts) || !bytes.Equal(p, sp.enr.Parts[i]) || (p == nil) != (sp.enr.Parts[i] == nil) {
+				c.Violate("Inscribe/op-return-data-modified", fmt.Sprintf("the caller's OpReturnData[%d] was changed", i), twin)
+				break
+			}
+		}
 	}
 	script := append([]byte{}, *tx.Outputs[0].LockingScript...)
 	if tx.Outputs[0].Satoshis != 1 {
@@ -593,14 +704,23 @@ func inscribeCase(prefix, ct, data []byte, enriched [][]byte, enrichedNil bool, 
 		// no claim that such a prefix parses at all; but when it does, the prefix returned is the one inscribed
 		c.Violate("Inscribe/roundtrip", fmt.Sprintf("prefix %x, inscribed %x", *got.LockingScriptPrefix, prefix), twin)
 	}
-	coq := fmt.Sprintf("CInscribe %s %s %s %s %s %s", cb(prefix), cb(ct), cb(data), coqOptList(enriched, enrichedNil),
-		common.CoqStr(common.Sha256Hex(script)), obs)
+	var coq string
+	key := fmt.Sprintf("i|%x|%x|%x|%v", prefix, ct, trunc(data), len(data))
+	if sp.variant == "" {
+		coq = fmt.Sprintf("CInscribe %s %s %s %s %s %s", cb(prefix), cb(ct), cb(data), coqOptList(sp.enr.Parts, sp.enr.ArgsNil),
+			common.CoqStr(common.Sha256Hex(script)), obs)
+	} else {
+		coq = fmt.Sprintf("CInscribeArgs %s %s %s %s %s %s", cb(prefix), cb(ct), coqOptSlice(sp.data), sp.enr.coq(),
+			common.CoqStr(common.Sha256Hex(script)), obs)
+		key += fmt.Sprintf("|%v|%s|%v", sp.data == nil, sp.enr.kind(), twin.Enriched)
+		c.Tally(fmt.Sprintf("inscribe-args/%s/data-nil=%v/enriched=%s/tail=%d", strings.SplitN(sp.variant, ":", 2)[0], sp.data == nil, sp.enr.kind(), sp.enr.tailLen()))
+	}
 	// weight: the Coq side hashes and tokenises the script; spread the long ones over shards
 	if len(script) > 4000 {
 		coq += " (*" + strings.Repeat(" ", len(script)/2) + "*)"
 	}
 	c.Tally(fmt.Sprintf("inscribe/ct=%d/data=%d", len(ct), lenBucket(len(data))))
-	c.Case(coq, twin, fmt.Sprintf("i|%x|%x|%x|%v", prefix, ct, trunc(data), len(data)), true)
+	c.Case(coq, twin, key, true)
 	return script
 }
 
@@ -691,6 +811,8 @@ type minted struct {
 	CTLen   int
 	DataLen int
 	Script  []byte
+	// Unsupported: hand-made, with a tail the flows do not recognise (they may refuse it)
+	Unsupported bool
 }
 
 func inscriptionCases(r *common.Rand) (mints []minted) {
@@ -714,7 +836,7 @@ func inscriptionCases(r *common.Rand) (mints []minted) {
 			k := newKey(r)
 			s := inscribeCase(k.P2PKH(), ct, payload(r, dn), nil, true, true)
 			if s != nil {
-				mints = append(mints, minted{k, cn, dn, s})
+				mints = append(mints, minted{Key: k, CTLen: cn, DataLen: dn, Script: s})
 			}
 			if !big && s != nil {
 				small = append(small, s)
@@ -813,6 +935,49 @@ func inscriptionCases(r *common.Rand) (mints []minted) {
 
 // ---------- flows over outputs that Inscribe made ----------
 
+// tradeMinted: one amply funded base scenario of the flow in which the minted output m is the ordinal on sale (role
+// ord), what the buyer pays with (role pay: one funding input for sure — any position: the one moved to the front, a
+// dummy, the one that pays — and some of the others from the pool), or both (the ordinal is m, the paying outputs
+// come from the pool).
+func tradeMinted(r *common.Rand, pool []minted, m minted, flow, role, label string) bool {
+	asPay := func(s *ordgen.Scenario, i int, m minted) {
+		f := append([]ordgen.U{}, s.Funding...)
+		f[i].Script, f[i].Key = common.Hex(m.Script), m.Key
+		s.Funding = f
+	}
+	s, _ := genScenario(r, flow)
+	s.Note = "ample"
+	if m.Unsupported {
+		s.Note = "ample/script-the-flows-do-not-recognise"
+	}
+	if s.IsBid() && len(s.SellerScript) > 50 {
+		// (a bid leaves the fee of a 25-byte seller script; the point here is the traded output: the sale has to complete)
+		s.SellerScript = p2pkhHex(r)
+	}
+	if role != "pay" {
+		s.Ord.Script, s.Ord.Key = common.Hex(m.Script), m.Key
+	}
+	if role != "ord" {
+		pm := m
+		if role == "both" && len(pool) > 0 {
+			pm = pool[r.Intn(len(pool))]
+		}
+		i := r.Intn(len(s.Funding))
+		asPay(&s, i, pm)
+		for j := range s.Funding {
+			if j != i && len(pool) > 0 && r.Chance(35) {
+				asPay(&s, j, pool[r.Intn(len(pool))])
+			}
+		}
+	}
+	if m.DataLen > 300 {
+		c.Weigh(c.ShardBytes) // a shard of its own
+	}
+	done := emitFlow(s)
+	c.Tally(fmt.Sprintf("%s/%v", label, done))
+	return done
+}
+
 // mintedFlowCases: every inscription output of the grid above (content-type lengths x payload lengths at the push
 // boundaries 75/76, 255/256, 65535/65536 and beyond, exactly as the library's Inscribe built them) is traded while
 // it still sits in its inscribing output: as the ordinal that is listed / bid for (role ord), as what the buyer pays
@@ -831,40 +996,8 @@ func mintedFlowCases(r *common.Rand, mints []minted) {
 			small = append(small, m)
 		}
 	}
-	asOrd := func(s *ordgen.Scenario, m minted) {
-		s.Ord.Script, s.Ord.Key = common.Hex(m.Script), m.Key
-	}
-	asPay := func(s *ordgen.Scenario, i int, m minted) {
-		f := append([]ordgen.U{}, s.Funding...)
-		f[i].Script, f[i].Key = common.Hex(m.Script), m.Key
-		s.Funding = f
-	}
 	run := func(m minted, flow, role string) {
-		s, _ := genScenario(r, flow)
-		s.Note = "ample"
-		if role != "pay" {
-			asOrd(&s, m)
-		}
-		if role != "ord" {
-			pm := m
-			if role == "both" && len(small) > 0 {
-				pm = small[r.Intn(len(small))]
-			}
-			// one funding input for sure (any position: the one moved to the front, a dummy, the one that pays)
-			i := r.Intn(len(s.Funding))
-			asPay(&s, i, pm)
-			// and, with short inscriptions, some of the others too
-			for j := range s.Funding {
-				if j != i && len(small) > 0 && r.Chance(35) {
-					asPay(&s, j, small[r.Intn(len(small))])
-				}
-			}
-		}
-		if m.DataLen > 300 {
-			c.Weigh(c.ShardBytes) // a shard of its own
-		}
-		done := emitFlow(s)
-		c.Tally(fmt.Sprintf("minted/%s/%s/ct=%d/data=%d/%v", flow, role, m.CTLen, m.DataLen, done))
+		tradeMinted(r, small, m, flow, role, fmt.Sprintf("minted/%s/%s/ct=%d/data=%d", flow, role, m.CTLen, m.DataLen))
 	}
 	n := 0
 	for _, m := range mints {
@@ -903,6 +1036,306 @@ func mintedFlowCases(r *common.Rand, mints []minted) {
 			run(m, p[0], p[1])
 		}
 		l++
+	}
+}
+
+// ---------- "nothing there" in the argument object ----------
+
+// nilFieldCases: Inscribe then ParseInscription with every field of InscriptionArgs that Go lets be absent written in
+// each of the ways Go has for it: Data nil (left unset) / an empty literal / empty with spare capacity / an empty
+// reslice of a non-empty buffer; ContentType empty; EnrichedArgs nil / OpReturnData nil / an empty list / lists with
+// nil elements at the front, at the back, alone, between empty and non-empty ones. Each call is a case of the
+// correspondence in the argument-object form (CInscribeArgs: the model is handed nil-ness as Go was), and the round
+// trip is stated on it: content type, data (no bytes) and prefix come back.
+func nilFieldCases(r *common.Rand) {
+	backing := r.Bytes(8)
+	type dv struct {
+		name string
+		d    []byte
+	}
+	datas := []dv{{"nil", nil}, {"empty-literal", []byte{}}, {"empty-spare-capacity", make([]byte, 0, 16)}, {"empty-reslice", backing[:0]},
+		{"one-zero-byte", []byte{0}}, {"text", []byte("Hello, world!")}}
+	cts := [][]byte{{}, []byte("text/plain")}
+	x := func(n int) []byte { return r.Bytes(n) }
+	type ev struct {
+		name string
+		e    enrSpec
+	}
+	enrs := []ev{{"nil-args", enrSpec{ArgsNil: true}}, {"nil-list", enrSpec{ListNil: true}}, {"empty-list", enrSpec{}},
+		{"[nil]", enrSpec{Parts: [][]byte{nil}}}, {"[nil nil]", enrSpec{Parts: [][]byte{nil, nil}}},
+		{"[nil x]", enrSpec{Parts: [][]byte{nil, x(1)}}}, {"[x nil]", enrSpec{Parts: [][]byte{x(1), nil}}},
+		{"[empty]", enrSpec{Parts: [][]byte{{}}}}, {"[empty nil empty]", enrSpec{Parts: [][]byte{{}, nil, make([]byte, 0, 4)}}},
+		{"[x]", enrSpec{Parts: [][]byte{x(1)}}}, {"[nil xx nil yyy]", enrSpec{Parts: [][]byte{nil, x(2), nil, x(3)}}}}
+	n := 0
+	for di, d := range datas {
+		for _, ct := range cts {
+			for ei, e := range enrs {
+				// quick: the whole list of tails for the two plain ways of giving no data, three of them (rotating) for the others
+				if !c.Thorough() && di >= 2 && (ei+n)%4 != 0 {
+					continue
+				}
+				inscribeSpecCase(inscSpec{prefix: feegen.P2PKH(r.Bytes(20)), ct: ct, data: d.d, enr: e.e, expectRoundTrip: true,
+					variant: "absent:data=" + d.name + ",op_return=" + e.name})
+			}
+			n++
+		}
+	}
+	// a prefix object that points at a nil script: Inscribe works on it like on an empty one (no round-trip claim)
+	var none bscript.Script
+	inscribeSpecCase(inscSpec{prefix: none, ct: []byte("x"), data: nil, enr: enrSpec{ArgsNil: true}, variant: "absent:prefix=nil-script"})
+}
+
+// ---------- enriched inscriptions (OP_RETURN data behind the envelope) in the flows ----------
+
+// tailVariant: what stands behind the envelope of an inscription output: the parts handed to Inscribe as
+// EnrichedArgs.OpReturnData, or (raw) bytes written behind OP_RETURN by hand — everything behind a top-level OP_RETURN
+// is data to the interpreter, well-formed pushes or not.
+type tailVariant struct {
+	name  string
+	enr   enrSpec
+	raw   []byte
+	isRaw bool
+}
+
+func (v tailVariant) tailLen() int {
+	if v.isRaw {
+		return len(v.raw)
+	}
+	return v.enr.tailLen()
+}
+
+// tailVariants: OP_RETURN data of 0, 1, 2, 3, 4, many parts; every total tail length 0..4 in each way it splits into
+// pushes (empty parts, nil parts, one-byte parts, one longer part) and as raw bytes (random ones and ones that look
+// like the start of a push: OP_PUSHDATA1/2/4 without their data, OP_RETURN, OP_CODESEPARATOR); single parts and sums of
+// parts whose tail is just below, at and above 75/76 and 255/256 bytes; parts at the lengths where the push encoding
+// changes; many small parts.
+func tailVariants(r *common.Rand) (vs []tailVariant) {
+	special := []byte{0x00, 0x01, 0x42, 0x4c, 0x51, 0x6a, 0x81, 0xab, 0xff}
+	x := func(n int) []byte {
+		b := r.Bytes(n)
+		if n > 0 && n <= 3 && r.Bool() {
+			b[0] = special[r.Intn(len(special))]
+		}
+		return b
+	}
+	// bytes that are opcodes of their own (no push): a raw tail made of them still reads as a list of parts
+	single := []byte{0x00, 0x4f, 0x51, 0x60, 0x6a, 0x75, 0x88, 0xab, 0xac, 0xae, 0xfe, 0xff}
+	ops := func(n int) []byte {
+		b := make([]byte, n)
+		for i := range b {
+			b[i] = single[r.Intn(len(single))]
+		}
+		return b
+	}
+	e := []byte{}
+	parts := func(name string, pp ...[]byte) {
+		vs = append(vs, tailVariant{name: name, enr: enrSpec{Parts: pp}})
+	}
+	raw := func(name string, b []byte) { vs = append(vs, tailVariant{name: name, raw: b, isRaw: true}) }
+	// no tail at all, three ways
+	vs = append(vs, tailVariant{name: "no-enriched-args", enr: enrSpec{ArgsNil: true}}, tailVariant{name: "op-return-data-nil", enr: enrSpec{ListNil: true}},
+		tailVariant{name: "op-return-data-empty", enr: enrSpec{}})
+	raw("raw0", []byte{})
+	// 1 byte
+	parts("1=[0]", e)
+	parts("1=[nil]", nil)
+	raw("raw1-opcode", ops(1))
+	raw("raw1-pushdata1-cut", []byte{0x4c})
+	// 2 bytes
+	parts("2=[1]", x(1))
+	parts("2=[0,0]", e, e)
+	parts("2=[nil,0]", nil, e)
+	raw("raw2-opcodes", ops(2))
+	raw("raw2-pushdata1-empty", []byte{0x4c, 0x00})
+	raw("raw2-pushdata1-cut", []byte{0x4c, 0x05})
+	raw("raw2-push-cut", []byte{0x02, byte(r.U64())})
+	// 3 bytes
+	parts("3=[2]", x(2))
+	parts("3=[0,1]", e, x(1))
+	parts("3=[1,0]", x(1), e)
+	parts("3=[0,0,0]", e, e, e)
+	raw("raw3-pushdata1-of-1", []byte{0x4c, 0x01, byte(r.U64())})
+	raw("raw3-opcodes", ops(3))
+	raw("raw3-pushdata2-cut", []byte{0x4d, 0x01, 0x00})
+	// 4 bytes
+	parts("4=[3]", x(3))
+	parts("4=[1,1]", x(1), x(1))
+	parts("4=[0,2]", e, x(2))
+	parts("4=[0,0,0,0]", e, e, e, e)
+	parts("4=[1,0,0]", x(1), e, e)
+	raw("raw4-pushdata2-of-1", []byte{0x4d, 0x01, 0x00, byte(r.U64())})
+	raw("raw4-pushdata4-cut", []byte{0x4e, 0x00, 0x00, 0x00})
+	// around 75/76 and 255/256 bytes of tail, one part and several
+	for _, n := range []int{73, 74, 75, 76, 252, 253, 254, 255, 256} {
+		if !c.Thorough() && (n == 73 || n == 252) {
+			continue
+		}
+		parts(fmt.Sprintf("%d=[%d]", len(ordgen.Push(make([]byte, n))), n), x(n))
+	}
+	parts("75=[36,37]", x(36), x(37))
+	parts("76=[0,74]", e, x(74))
+	parts("255=[100,100,50]", x(100), x(100), x(50))
+	parts("256=[100,100,51]", x(100), x(100), x(51))
+	parts("boundary-parts=[75,76,255,256]", x(75), x(76), x(255), x(256))
+	raw("raw10-codeseparator-first", append([]byte{0xab}, ops(9)...))
+	raw("raw76-opcodes", ops(76))
+	// many parts (MAP-like: protocol address, verb, keys and values)
+	var many [][]byte
+	for i := 12 + r.Intn(8); i > 0; i-- {
+		many = append(many, x(r.Pick([]int{0, 1, 3, 3, 5, 12, 34})))
+	}
+	vs = append(vs, tailVariant{name: fmt.Sprintf("many=%d", len(many)), enr: enrSpec{Parts: many}})
+	var empties [][]byte
+	for i := 0; i < 40; i++ {
+		empties = append(empties, e)
+	}
+	vs = append(vs, tailVariant{name: "many-empty=40", enr: enrSpec{Parts: empties}})
+	return
+}
+
+// readsAsParts: the bytes are a sequence of complete pushes and single-byte opcodes (the harness's own walk). The
+// library's flows only take inputs whose script they recognise as P2PKH or P2PKH + inscription, for which the whole
+// script — the tail included — has to read like this; an output with any other tail can sit on chain but the flows
+// refuse it (no transaction, nothing to state).
+func readsAsParts(b []byte) bool {
+	for len(b) > 0 {
+		n, h := 0, 1
+		switch {
+		case b[0] >= 1 && b[0] <= 75:
+			n = int(b[0])
+		case b[0] == 0x4c:
+			h = 2
+		case b[0] == 0x4d:
+			h = 3
+		case b[0] == 0x4e:
+			h = 5
+		}
+		if len(b) < h {
+			return false
+		}
+		for i := h - 1; i >= 1 && h > 1; i-- {
+			n = n<<8 | int(b[i])
+		}
+		if len(b) < h+n {
+			return false
+		}
+		b = b[h+n:]
+	}
+	return true
+}
+
+type enrichedMint struct {
+	minted
+	Name      string
+	Tail      int  // bytes behind OP_RETURN; -1: no OP_RETURN
+	Supported bool // the flows take it (made by Inscribe, or a raw tail that reads as parts)
+}
+
+// enrichedFlowCases: every tail variant is put behind an inscription — by the library's Inscribe (a case of the
+// correspondence in its own right, round trip stated on it) or, for the raw ones, by hand on the envelope Inscribe
+// writes — on the P2PKH script of a fresh key, and the output is traded while it sits there. Quick: for every tail
+// length 0..4 the variants of that length go round the four flows so that each length is, in every flow, the script
+// of the ordinal the seller signs for (roles ord / both; further variants of the length pay for the purchase), and every
+// longer variant is traded once, flows and roles cycling; thorough: every variant in every flow and role. All clauses
+// of the property are stated on every completed transaction (every input through the real interpreter, which has
+// to re-serialise the locking script, tail included, for the signature digest).
+func enrichedFlowCases(r *common.Rand) {
+	flows := []string{"list", "list2d", "bid", "bid2d"}
+	roles := []string{"ord", "pay", "both"}
+	var ms []enrichedMint
+	for _, v := range tailVariants(r) {
+		k := newKey(r)
+		ct := [][]byte{[]byte("text/plain;charset=utf-8"), {}, r.Bytes(1 + r.Intn(12))}[r.Intn(3)]
+		var data []byte
+		switch r.Intn(4) {
+		case 0: // Data left unset
+		case 1:
+			data = []byte{}
+		default:
+			data = r.Bytes(1 + r.Intn(40))
+		}
+		var script []byte
+		if v.isRaw {
+			script = append(append(ordgen.InscriptionScript(k.Hash160(), ct, data), 0x6a), v.raw...)
+			obs, _, _ := parseObs(script)
+			c.Tally("parse/enriched-raw-tail/" + strings.SplitN(strings.Trim(obs, "()"), " ", 2)[0])
+			c.Case(fmt.Sprintf("CParse %s %s", cb(script), obs), map[string]string{"kind": "enriched-raw-tail:" + v.name, "script": common.Hex(trunc(script))}, "p|"+common.Hex(script), true)
+		} else {
+			script = inscribeSpecCase(inscSpec{prefix: k.P2PKH(), ct: ct, data: data, enr: v.enr, expectRoundTrip: true, variant: "enriched:" + v.name})
+			if script == nil {
+				continue
+			}
+			if want := v.enr.tailLen(); want >= 0 {
+				// the pushes of OpReturnData stand behind an OP_RETURN that follows the envelope, byte for byte
+				env := ordgen.InscriptionScript(k.Hash160(), ct, data)
+				tail := []byte{0x6a}
+				for _, p := range v.enr.Parts {
+					tail = append(tail, ordgen.Push(p)...)
+				}
+				if !bytes.Equal(script, append(env, tail...)) {
+					c.Violate("Inscribe/op-return-data-not-written", fmt.Sprintf("script %x, expected the envelope followed by %x", trunc(script), trunc(tail)), map[string]interface{}{"variant": v.name, "content_type_hex": common.Hex(ct), "data_hex": common.Hex(data)})
+				}
+			}
+		}
+		ms = append(ms, enrichedMint{minted{Key: k, CTLen: len(ct), DataLen: len(data), Script: script}, v.name, v.tailLen(), !v.isRaw || readsAsParts(v.raw)})
+	}
+	var pool []minted
+	for _, m := range ms {
+		if m.Supported {
+			pool = append(pool, m.minted)
+		}
+	}
+	trade := func(m enrichedMint, flow, role string) {
+		if !m.Supported {
+			// a tail the flows do not recognise: the output is offered as the ordinal (or pays) on its own; the flow
+			// may refuse it, whatever it completes is held to every clause
+			if role == "both" {
+				role = "ord"
+			}
+			m.minted.Unsupported = true
+		}
+		tradeMinted(r, pool, m.minted, flow, role, fmt.Sprintf("minted-enriched/%s/%s/tail=%d/supported=%v", flow, role, m.Tail, m.Supported))
+		c.Tally("minted-enriched-variant/" + m.Name)
+	}
+	if c.Thorough() {
+		for _, m := range ms {
+			for _, f := range flows {
+				for _, ro := range roles {
+					trade(m, f, ro)
+				}
+			}
+		}
+		return
+	}
+	rot := r.Intn(4)
+	byLen := map[int][]enrichedMint{}
+	var longer []enrichedMint
+	for _, m := range ms {
+		if m.Tail >= 0 && m.Tail <= 4 && m.Supported {
+			byLen[m.Tail] = append(byLen[m.Tail], m)
+		} else {
+			longer = append(longer, m)
+		}
+	}
+	for l := 0; l <= 4; l++ {
+		vs := byLen[l]
+		if len(vs) == 0 {
+			continue
+		}
+		n := len(vs)
+		if n < 4 {
+			n = 4
+		}
+		for j := 0; j < n; j++ {
+			role := "pay"
+			if j < 4 {
+				role = []string{"ord", "both"}[(j+l)%2]
+			}
+			trade(vs[j%len(vs)], flows[(j+l+rot)%4], role)
+		}
+	}
+	for i, m := range longer {
+		trade(m, flows[(i+rot)%4], roles[(i/4+i)%3])
 	}
 }
 
@@ -995,6 +1428,9 @@ func main() {
 	mints := inscriptionCases(r.Fork())
 	mintedFlowCases(r.Fork(), mints)
 	rangeCases(r.Fork())
-	c.Stats.Rule = "flows: per flow (ListOrdinalForSale+AcceptOrdinalSaleListing, the 2-dummy variant, MakeBid+AcceptBid, the 2-dummy variant) seeded base scenarios: fresh secp256k1 keys for seller and 2 buyer keys, ordinal UTXO (P2PKH or P2PKH-inscription of the seller with a payload of 0..59 bytes or at a push-encoding boundary 74..77 / 254..257 / 300 bytes, 1/2/10/1000 sat; one funding UTXO in eight is an inscription output of the buyer of the same kind), price from {1,2,545,546,1000,..,2^32+5,21e14} or random < 1e8, 2..5 funding UTXOs (3..5 for 2 dummies) with the UTXO worth more than the price at a random position and the others at price / price-1 / price/2 / small, one of 11 fee quotes (0..50 sat/byte, unequal std/data); in the standard flows the seller is paid on P2PKH or (one in four) on a 1-of-2 multisig, P2PK, one-byte, inscription or P2SH script; each base is run amply funded (a well-formed amply funded offer that is turned down is reported: funded-offer-rejected), then under- and over-funded by the harness's own fee estimate (size of the ample result x quote, independent of the flow's verdict), then at the fee boundary found by bisection on one UTXO's value (smallest value for which the flow returns a transaction) -1/0/+1 and at random points inside a 140-sat window on both sides, plus negatives (validation given another UTXO, too few UTXOs, no UTXO above the price, quote lacking a fee type, seller's ExpectedFQ 0.9..2x the bidder's quote at its own boundary). Every returned transaction: each input executed by the real interpreter (re-decoded tx, previous output from the scenario, FORKID+after-genesis), seller output at the ordinal's input index, FIFO routing of the ordinal's first satoshi computed over big integers, fee >= quoted fee of the final serialisation. inscription histories: 2..4 inscriptions on one transaction sharing one prefix object (from NewP2PKHFromPubKeyHash, with spare capacity, exact, or returned by ParseInscription), every output re-parsed afterwards; inscriptions: content-type lengths {0,1,24,75,76,255,256} x payload lengths {0,1,75,76,255,256,65535,65536,100000} (long ones for one content type in quick; thorough adds 74,77,254,257,65534,65537), each minted by the library's Inscribe on the P2PKH script of a fresh key; flows over minted outputs: every output of that grid is then traded while it sits in its inscribing output — as the ordinal listed / bid for, as one or more of the buyer's funding inputs (dummy inputs included), or both with two different inscriptions — in an amply funded base scenario, flow and role cycling over the grid in quick (each short one once; the four long ones: 65535 bytes as the ordinal of a two-dummy listing, 65536 as the ordinal of a listing and as a bidder's funding input, 100000 as the ordinal of a two-dummy bid), every flow x role in thorough (long ones: three combinations each), all clauses checked on the completed transaction (every input through the real interpreter) and the long ones compared with the model through SHA-256 in a shard of their own; script-like payloads, enriched OP_RETURN tails, random small; ParseInscription on all 144 pairs of 12 push encodings at the content-type/data positions, and bit flips / truncations / deletions / insertions / appends of inscribed scripts and random scripts; InscribeSpecificOrdinal on 0..4 inputs with values incl. 0, 2^63, 2^64-1, index up to len+1 and 2^31/2^32-1. distinct = distinct (flow, price, quote, funding values, ordinal script) / (prefix, content type, payload) / script / (values, index, satoshi); all cases non-trivial except rangeAbove on no inputs"
+	// (forked last: the families above see the same random stream as before these were added)
+	nilFieldCases(r.Fork())
+	enrichedFlowCases(r.Fork())
+	c.Stats.Rule = "flows: per flow (ListOrdinalForSale+AcceptOrdinalSaleListing, the 2-dummy variant, MakeBid+AcceptBid, the 2-dummy variant) seeded base scenarios: fresh secp256k1 keys for seller and 2 buyer keys, ordinal UTXO (P2PKH or P2PKH-inscription of the seller with a payload of 0..59 bytes or at a push-encoding boundary 74..77 / 254..257 / 300 bytes, 1/2/10/1000 sat; one funding UTXO in eight is an inscription output of the buyer of the same kind), price from {1,2,545,546,1000,..,2^32+5,21e14} or random < 1e8, 2..5 funding UTXOs (3..5 for 2 dummies) with the UTXO worth more than the price at a random position and the others at price / price-1 / price/2 / small, one of 11 fee quotes (0..50 sat/byte, unequal std/data); in the standard flows the seller is paid on P2PKH or (one in four) on a 1-of-2 multisig, P2PK, one-byte, inscription or P2SH script; each base is run amply funded (a well-formed amply funded offer that is turned down is reported: funded-offer-rejected), then under- and over-funded by the harness's own fee estimate (size of the ample result x quote, independent of the flow's verdict), then at the fee boundary found by bisection on one UTXO's value (smallest value for which the flow returns a transaction) -1/0/+1 and at random points inside a 140-sat window on both sides, plus negatives (validation given another UTXO, too few UTXOs, no UTXO above the price, quote lacking a fee type, seller's ExpectedFQ 0.9..2x the bidder's quote at its own boundary). Every returned transaction: each input executed by the real interpreter (re-decoded tx, previous output from the scenario, FORKID+after-genesis), seller output at the ordinal's input index, FIFO routing of the ordinal's first satoshi computed over big integers, fee >= quoted fee of the final serialisation. inscription histories: 2..4 inscriptions on one transaction sharing one prefix object (from NewP2PKHFromPubKeyHash, with spare capacity, exact, or returned by ParseInscription), every output re-parsed afterwards; inscriptions: content-type lengths {0,1,24,75,76,255,256} x payload lengths {0,1,75,76,255,256,65535,65536,100000} (long ones for one content type in quick; thorough adds 74,77,254,257,65534,65537), each minted by the library's Inscribe on the P2PKH script of a fresh key; flows over minted outputs: every output of that grid is then traded while it sits in its inscribing output — as the ordinal listed / bid for, as one or more of the buyer's funding inputs (dummy inputs included), or both with two different inscriptions — in an amply funded base scenario, flow and role cycling over the grid in quick (each short one once; the four long ones: 65535 bytes as the ordinal of a two-dummy listing, 65536 as the ordinal of a listing and as a bidder's funding input, 100000 as the ordinal of a two-dummy bid), every flow x role in thorough (long ones: three combinations each), all clauses checked on the completed transaction (every input through the real interpreter) and the long ones compared with the model through SHA-256 in a shard of their own; script-like payloads, enriched OP_RETURN tails, random small; ParseInscription on all 144 pairs of 12 push encodings at the content-type/data positions, and bit flips / truncations / deletions / insertions / appends of inscribed scripts and random scripts; InscribeSpecificOrdinal on 0..4 inputs with values incl. 0, 2^63, 2^64-1, index up to len+1 and 2^31/2^32-1; absent fields: Inscribe -> ParseInscription with Data nil / empty literal / empty with spare capacity / empty reslice / one zero byte / text x ContentType empty / text x EnrichedArgs nil / OpReturnData nil / empty list / lists with nil elements alone, first, last, between empty and non-empty ones (the whole list for the two plain ways of giving no data in quick, the full product in thorough), compared with the model of the argument object that keeps nil-ness (CInscribeArgs); enriched inscriptions in the flows: OP_RETURN data of 0, 1, 2, 3, 4, 12..19, 40 parts, every tail length 0..4 in each way it splits into pushes (empty / nil / one-byte / longer parts) and as hand-written bytes behind OP_RETURN (single-byte opcodes incl. OP_RETURN and OP_CODESEPARATOR, non-minimal pushes, pushes cut short), tails of 74..78 and 254..259 bytes as one part and as sums of parts, parts at 75/76/255/256 bytes, each minted by Inscribe on a fresh key (script compared byte for byte with envelope + OP_RETURN + pushes written by the harness) and traded while it sits there: per tail length 0..4 every flow with that script as the ordinal the seller signs for, further variants paying for the purchase, longer tails once each with flow and role cycling (thorough: every variant x flow x role); hand-written tails that do not read as complete pushes are offered too (the flows may refuse them; whatever completes is held to every clause). distinct = distinct (flow, price, quote, funding values, ordinal script) / (prefix, content type, payload) / script / (values, index, satoshi); all cases non-trivial except rangeAbove on no inputs"
 	c.Finish()
 }
